@@ -4,6 +4,9 @@ generator and an evaluator that never touches the library's parser.
   ['role', r] ['true'] ['false'] ['rule', n] ['not', x]
   ['and', [x, ...]] ['or', [x, ...]]
   ['http', url_template]            (C16 only)
+  ['paren', x]                      x in redundant parentheses: another
+                                    spelling of the same check
+  ['flag', f]                       custom check class 'simflag:<f>'
 """
 import json
 
@@ -24,6 +27,8 @@ def show(a, top=True):
         return 'simflag:' + a[1]
     if k == 'not':
         return 'not ' + show(a[1], False)
+    if k == 'paren':
+        return '(' + show(a[1], False) + ')'
     return '(' + (' %s ' % k).join(show(x, False) for x in a[1]) + ')'
 
 
@@ -45,6 +50,8 @@ def ev(a, roles, lookup):
         return False
     if k == 'not':
         return not ev(a[1], roles, lookup)
+    if k == 'paren':
+        return ev(a[1], roles, lookup)
     if k == 'and':
         return all([ev(x, roles, lookup) for x in a[1]])
     if k == 'or':
@@ -60,7 +67,7 @@ def refs(a, out=None):
     k = a[0]
     if k == 'rule':
         out.add(a[1])
-    elif k == 'not':
+    elif k in ('not', 'paren'):
         refs(a[1], out)
     elif k in ('and', 'or'):
         for x in a[1]:
@@ -70,7 +77,7 @@ def refs(a, out=None):
 
 def size(a):
     k = a[0]
-    if k == 'not':
+    if k in ('not', 'paren'):
         return 1 + size(a[1])
     if k in ('and', 'or'):
         return 1 + sum(size(x) for x in a[1])
@@ -112,7 +119,7 @@ def simplifications(a):
         if len(a[1]) > 2:
             for i in range(len(a[1])):
                 yield [k, a[1][:i] + a[1][i + 1:]]
-    elif k == 'not':
+    elif k in ('not', 'paren'):
         yield a[1]
     if k not in ('true', 'false'):
         yield ['false']
@@ -144,3 +151,9 @@ def render(mapping, style):
     if style == 'yaml_doc':
         return '---\n' + ''.join('"%s":\n  "%s"\n' % kv for kv in d.items())
     raise ValueError(style)
+
+
+def strip_parens(a):
+    while a[0] == 'paren':
+        a = a[1]
+    return a
